@@ -146,11 +146,19 @@ func checkExactStats(c *core.Ctx, st *skState) {
 				c.Failf("exact.quantile.range", "quantile(%v)=%v outside the exact [min,max]=[%v,%v]", q, y, es.min, es.max)
 			}
 		}
-		ys, err := k.GetValuesAtQuantiles(clampGrid)
-		if err != nil || len(ys) != len(clampGrid) {
+		// the batch query takes the quantiles in any order
+		grid := append([]float64{}, clampGrid...)
+		if c.R.Bool() {
+			for i, j := range c.R.Perm(len(grid)) {
+				grid[i] = clampGrid[j]
+			}
+			c.Count("oracle.batch_in_shuffled_order", 1)
+		}
+		ys, err := k.GetValuesAtQuantiles(grid)
+		if err != nil || len(ys) != len(grid) {
 			c.Failf("exact.batch.error", "GetValuesAtQuantiles: %v", err)
 		} else {
-			for i, q := range clampGrid {
+			for i, q := range grid {
 				if y1, _ := k.GetValueAtQuantile(q); ys[i] != y1 && !fuzzy {
 					c.Failf("exact.batch.differs", "batch quantile(%v)=%v, single=%v", q, ys[i], y1)
 				}
@@ -364,6 +372,24 @@ func checkCoherence(c *core.Ctx, st *skState) {
 	if berr != nil || len(batch) != len(qs) {
 		c.Failf("coherence.batch.error", "GetValuesAtQuantiles: %v (len %d)", berr, len(batch))
 		return
+	}
+	if c.R.Bool() {
+		// the batch query takes the quantiles in any order
+		sh := make([]float64, len(qs))
+		for i, j := range c.R.Perm(len(qs)) {
+			sh[i] = qs[j]
+		}
+		sb, err := k.GetValuesAtQuantiles(sh)
+		if err != nil || len(sb) != len(sh) {
+			c.Failf("coherence.batch.error", "GetValuesAtQuantiles (shuffled order): %v", err)
+			return
+		}
+		for i, q := range sh {
+			if y, _ := k.GetValueAtQuantile(q); y != sb[i] {
+				c.Failf("coherence.batch.differs", "batch (shuffled order) quantile(%v)=%v, single %v", q, sb[i], y)
+			}
+		}
+		c.Count("oracle.batch_in_shuffled_order", 1)
 	}
 	prev := math.Inf(-1)
 	c.Count("oracle.monotone_checks", 1)
